@@ -196,6 +196,16 @@ def identity_checks():
     # distinct classes with equal names must give distinct specialisations
     if Concurrent[ErrA] is Concurrent[ErrB] or isinstance(Concurrent(ErrA('x')), Concurrent[ErrB]):
         msgs.append('two different exception classes that share a __name__ give the same specialisation')
+    # identity must not depend on how many other specialisations were created in between
+    first = Concurrent[KeyError, IndexError]
+    keep = type(Concurrent(KeyError('a'), IndexError('b')))
+    others = []
+    for i in range(300):
+        exc = type('Err%d' % i, (Exception,), {})
+        others.append(Concurrent[exc])
+    if Concurrent[KeyError, IndexError] is not first or type(Concurrent(IndexError('b'), KeyError('a'))) is not keep or first is not keep:
+        msgs.append('Concurrent[KeyError, IndexError] is no longer the identical class after 300 other specialisations were created')
+    del others
     # flattened(): leaves and their order
     leaves = [KeyError('a'), IndexError('b'), ValueError('c'), RuntimeError('d'), LookupError('e')]
     shapes = [
